@@ -614,6 +614,6 @@ def replay(rec):
         print('current', dict(d), 'model', cur, 'changes', d.changes)
         return ok
     print(json.dumps(rec, indent=1)[:3000])
-    ctx = core.Ctx('C09', 'quick', 0)
+    ctx = core.Ctx('C09', rec.get('tier', 'quick'), 0)
     run(ctx)
     return rec['key'] not in ctx._viol
